@@ -3,7 +3,7 @@
 (* TLC as judge of recorded executions (code -> spec).                      *)
 (*                                                                          *)
 (* The batch file (env TRACE_FILE) is a JSON array of traces.  A trace is   *)
-(*   [id, rows, mode, exp, audit]                                           *)
+(*   [id, rows, mode, exp, prefix]                                          *)
 (* rows  : what the REAL code wrote, decoded by /verif's own wire codec     *)
 (* mode  : "seq"  - the denotation must equal exp item by item, in order    *)
 (*         "set"  - the set of denoted items must equal the set exp         *)
@@ -45,8 +45,8 @@ Step ==
   /\ l' = l + 1
   /\ UNCHANGED <<tid, done>>
 
-FinalErr ==
-  LET e == RdEnd(rd) IN
+FinalErr ==            \* prefix = TRUE: the writer stopped mid-stream; only prefix validity is demanded
+  LET e == IF Tr.prefix THEN rd ELSE RdEnd(rd) IN
   IF e.err # "" THEN e.err
   ELSE IF Tr.mode = "seq" /\ rd.n # Len(Tr.exp) THEN "D-fewer-items-than-input"
   ELSE IF Tr.mode = "set" /\ acc # {Tr.exp[i] : i \in DOMAIN Tr.exp} THEN "D-set-differs-from-input"
